@@ -119,6 +119,16 @@ def run(ctx):
                                 break
     # ---- large populations (ballot-sized N, lengths past powers of two), small samples: the returned limits are checked
     #      against the defining inequalities one step inside and outside (exact big-integer tails)
+    # ---- a census (n = N): the number of good items is known, so every interval is [x, x], whatever the level and the starting value
+    for _ in range(ctx.n(150, 1500)):
+        N = ctx.rng.randint(1, 120); x = ctx.rng.randint(0, N); cl = ctx.rng.choice(CLS[:6]); alt = ctx.rng.choice(ALTS)
+        args = (N, x, N, cl, alt) + (() if ctx.rng.random() < 0.7 else (ctx.rng.randint(0, N),))
+        r = guarded(utils.hypergeom_conf_interval, *args, secs=60)
+        want = (x if alt != "upper" else 0, x if alt != "lower" else N)
+        ctx.case(("census", N, x, cl, alt, len(args)), True); ctx.count("census")
+        if r[0] != "ok" or (int(r[1][0]), int(r[1][1])) != want:
+            ctx.violation("oracle", {"call": "hypergeom_conf_interval", "n": N, "x": x, "N": N, "cl": cl, "alternative": alt, "G_start": args[5] if len(args) > 5 else None,
+                                     "issue": "census: the interval is not the known number of good items", "returned": str(r[1:])[:100], "expected": list(want)}, site="hypergeom_conf_interval")
     for _ in range(ctx.n(110, 900)):
         if ctx.rng.random() < 0.45:
             # mid-sized populations with a sizeable sampling fraction and very few good (or bad) items in the sample: the true limits
